@@ -107,7 +107,7 @@ def drive(ctx, trace, rng, path, strings, tag, step):
         ctx.current = {"strings": [list(s) for s in strings][:30] if len(strings) < 100 else tag, "data": d[:600]}
         ctx.case(tag + d.hex(), len(d) >= 32, sample={"data_hex": d[:48].hex(), "len": len(d)} if len(d) == 48 else None)
         try:
-            trace.parse_trace_data(memoryview(d) if rng.random() < 0.5 else d, path)
+            trace.parse_trace_data(iogen.view_of(rng, d), path)
         except Exception as e:
             ctx.violation("C15/decoder-raised/" + type(e).__name__, "parse_trace_data raised %r (every input must be decoded or dumped)" % (e,),
                           data=d[:600], strings=[list(s) for s in strings][:40] if len(strings) < 100 else tag)
@@ -127,6 +127,19 @@ def run(spec, ctx):
             FILES[os.path.abspath(path)] = iogen.model_strings(strings)
             for _ in range(3):
                 drive(ctx, trace, rng, path, iogen.model_strings(strings), "syn%d-%d" % (spec["rseed"], i), spec["step"])
+            if strings and i % 3 == 0:
+                # same path, same size, same time stamps, other messages (first letter of one message changed)
+                k = rng.randrange(len(strings))
+                h, msg, loc = strings[k]
+                if msg.strip() and msg.strip()[0].isalpha():
+                    m2 = msg.replace(msg.strip()[0], "Q" if msg.strip()[0] != "Q" else "Z", 1)
+                    s2 = list(strings)
+                    s2[k] = (h, m2, loc)
+                    old_line, new_line = "%d||%s||%s" % (h, msg, loc), "%d||%s||%s" % (h, m2, loc)
+                    if iogen.rewrite_same_stat(path, lambda t: t.replace(old_line, new_line, 1) if t.count(old_line) == 1 else None):
+                        FILES[os.path.abspath(path)] = iogen.model_strings(s2)
+                        ctx.count("workload.same_stat_rewrites")
+                        drive(ctx, trace, rng, path, iogen.model_strings(s2), "syn%d-%d-rw" % (spec["rseed"], i), spec["step"])
         return
     from io_drawer.drawer_type import MEX_DRAWER_TYPE, NIMITZ_DRAWER_TYPE
     dt = MEX_DRAWER_TYPE if spec["which"] == "mex" else NIMITZ_DRAWER_TYPE
